@@ -55,8 +55,13 @@ def tlc(spec, cfg, env=None, workers=1, metadir=None, timeout=600, extra=None, h
         rc, out = sh(cmd, timeout=timeout, env=env, cwd=SPEC)
     except subprocess.TimeoutExpired as ex:
         shutil.rmtree(md, ignore_errors=True)
-        return {"rc": -9, "out": (ex.stdout or "")[-4000:] if isinstance(ex.stdout, str) else "", "timeout": True,
-                "states": 0, "distinct": 0, "depth": 0, "result": None, "violated": None, "error": "timeout", "wall": time.time() - t0}
+        po = ex.stdout or ""
+        if isinstance(po, bytes):
+            po = po.decode(errors="replace")
+        pm = re.findall(r"([\d,]+) states generated.*?([\d,]+) distinct states found", po)
+        return {"rc": -9, "out": po[-4000:], "timeout": True, "states": int(pm[-1][0].replace(",", "")) if pm else 0,
+                "distinct": int(pm[-1][1].replace(",", "")) if pm else 0, "depth": 0, "result": None, "violated": None, "error": "timeout",
+                "wall": time.time() - t0}
     shutil.rmtree(md, ignore_errors=True)
     r = {"rc": rc, "out": out, "timeout": False, "wall": time.time() - t0, "result": None, "violated": None, "error": None}
     m = re.search(r"(\d+) states generated, (\d+) distinct states found", out)
